@@ -32,7 +32,7 @@ ASSUMPTIONS = [
 ]
 
 F = refws.enc_frame
-KINDS = ('reset', 'pipe', 'timeout', 'runtime')
+KINDS = ('reset', 'pipe', 'timeout', 'runtime', 'reset-braces')
 
 
 def scenarios():
@@ -48,6 +48,10 @@ def scenarios():
                            policy={}, ckw=dict(ping_rate=1.0, ping_timeout=5.0, poll=0.5), horizon=6.0)
     sc['client-close'] = dict(steps=[('raw', F(1, b'x')), ('await_close',), ('raw', F(1, b'between')), ('echo_close',)],
                               policy={'poll#0': [['close', 1000, 'bye']]}, ckw=dict(ping_rate=0), cutsteps=True)
+    sc['client-close-silent-peer'] = dict(steps=[('raw', F(1, b'x'))], policy={'text': [['close', 1000, 'bye']]},
+                                          ckw=dict(ping_rate=0, poll=1.0, close_timeout=2.0), horizon=12.0, stop=12.0)
+    sc['server-close-silent-peer'] = dict(steps=[('raw', F(8, refws.close_payload(1000, 'srv')))], policy={},
+                                          ckw=dict(ping_rate=0, poll=1.0, close_timeout=2.0), horizon=12.0, stop=12.0)
     close_at = len(F(1, b'x'))
     sc['server-close'] = dict(steps=[('raw', F(1, b'x') + F(8, refws.close_payload(1001, 'away'))), ('await_close',), ('eof',)],
                               policy={'closing': [['send_text', 'last words']]}, ckw=dict(ping_rate=0), server_close_off=close_at)
@@ -74,7 +78,7 @@ def make_world(sc, faults=None, rx_limit=None, addrs=None, cuts=None):
                 off += len(st[1])
                 cuts.append(off)
     return H.World(H.hs_server(sc['steps'], hs), faults=faults, rx_limit=rx_limit, addrs=addrs, cuts=cuts,
-                   horizon=sc.get('horizon', 0.0), budget=20000)
+                   horizon=sc.get('horizon', 0.0), stop_at=sc.get('stop'), budget=20000)
 
 
 def run_sc(sc, **kw):
@@ -147,6 +151,10 @@ def cases(tier, seed, i, n):
             a, c = rnd.sample(pts, 2)
             yield dict(kind='double', sc=name, f1=[a[0], a[1], rnd.choice(KINDS)], f2=[c[0], c[1], rnd.choice(KINDS)],
                        cuts=rnd.choice((None, 'all')))
+        for naddr in (2, 3):
+            for first_ok in range(naddr):
+                for second_ok in range(naddr):
+                    yield dict(kind='addr-reconnect', naddr=naddr, first_ok=first_ok, second_ok=second_ok)
         for bfault in ('eof', 'reset', 'protocol-error', 'server-close'):
             for astuck in ('app-send', 'app-ping', 'app-close'):
                 yield dict(kind='twoconn', bfault=bfault, astuck=astuck)
@@ -168,6 +176,8 @@ def run_case(case, acc):
         return run_real(case, acc)
     if k == 'twoconn':
         return run_twoconn(case, acc)
+    if k == 'addr-reconnect':
+        return run_addr_reconnect(case, acc)
     sc = SC[case['sc']]
     b = baseline(case['sc'])
     if k == 'point':
@@ -220,6 +230,20 @@ def judge(case, sc, b, run, w):
                   faults_hit=w.faults_hit, calls=[(c['name'], c['ok'], c['exc']) for c in run.calls][-6:],
                   sockets=[(s.sid, s.closed) for s in w.socks])
     key = monitors.grammar_violation(names, run.end == 'stop') or monitors.run_end_violation(run, w)
+    if key is None and run.end == 'quiesced' and sc['ckw'].get('close_timeout') and 'ready' in names:
+        # the client tried to write a Close (successfully or not) and close_timeout is configured:
+        # the loop must not wait for ever on the silent peer
+        ct, p_ = sc['ckw']['close_timeout'], sc['ckw'].get('poll', 5.0)
+        tclose = None
+        for e in w.log:
+            if e[0] in ('sendall', 'sendall_fault'):
+                data = e[5] if e[0] == 'sendall' else e[5][1]
+                if _is_close(data) and tclose is None:
+                    tclose = e[1]
+        if tclose is not None and w.now - tclose > ct + 2 * p_ + 1e-9:
+            key = 'no-termination-after-close-timeout-elapsed'
+            if any(e[0] == 'sendall_fault' and _is_close(e[5][1]) for e in w.log):
+                key += ':close-write-had-failed'
     if key:
         return key, detail
     for c in run.calls:
@@ -427,3 +451,40 @@ def run_twoconn(case, acc):
         acc.violation(key, 'C09 %s: B fault=%s while A is stuck in %s' % (key, bfault, astuck), case, detail)
     else:
         acc.cls('twoconn/%s/%s' % (bfault, astuck))
+
+
+def run_addr_reconnect(case, acc):
+    """Two connects on the SAME WebSocket object; which addresses accept changes in between.  Every resolved
+    address must be tried (in order) on the second attempt too."""
+    n = case['naddr']
+    sc = SC['text-exchange']
+
+    def addrs(ok_index):
+        return [('ok' if a == ok_index else 'refused', ('10.0.0.%d' % (a + 1), 80)) for a in range(n)]
+
+    w1 = H.World(H.hs_server(sc['steps']), addrs=addrs(case['first_ok']))
+    r1 = H.drive(w1, connect_kwargs=sc['ckw'], policy=H.TablePolicy(sc['policy']))
+    w2 = H.World(H.hs_server(sc['steps']), addrs=addrs(case['second_ok']))
+    r2 = H.drive(w2, ws=r1.ws, connect_kwargs=sc['ckw'], policy=H.TablePolicy(sc['policy']))
+    acc.count2('oracle', 'multi_address_runs')
+    acc.count2('oracle', 'address_reconnect_runs')
+    key = None
+    detail = dict(first=[n_ for n_ in r1.names if n_ != 'poll'], second=[n_ for n_ in r2.names if n_ != 'poll'],
+                  second_connects=[e[5] for e in w2.log if e[0] == 'connect'],
+                  second_lookups=[e[5] for e in w2.log if e[0] == 'getaddrinfo'])
+    for run, w in ((r1, w1), (r2, w2)):
+        k2 = monitors.grammar_violation(run.names, run.end == 'stop') or monitors.run_end_violation(run, w)
+        if k2:
+            key = k2
+    if key is None:
+        if 'connected' not in r2.names:
+            key = 'gave-up-before-trying-every-address:on-reconnect'
+        elif [H.norm(e) for e in r2.events if e.name != 'poll'] != baseline('text-exchange')['events']:
+            key = 'events-differ-after-fallback-to-later-address'
+        elif not all(s_.closed for s_ in w2.socks):
+            key = 'socket-left-open:plain'
+    if key:
+        acc.violation(key, 'C09 %s: %d addresses, first attempt: #%d accepts, second attempt: #%d accepts' % (
+            key, n, case['first_ok'], case['second_ok']), case, detail)
+    else:
+        acc.cls('addr-reconnect/%d/%d/%d' % (n, case['first_ok'], case['second_ok']))
